@@ -398,6 +398,20 @@ func c03Check(c c03Case) *Violation {
 				}
 			}
 		case "slice":
+			// a feature made of sites only, all of them strictly inside a forward window, overlaps it and stays
+			if len(res) == 0 && sites && newLen > 0 {
+				if ws, we, wrap := c.window(); !wrap {
+					inside := true
+					for _, e := range d {
+						if e.Site && !(e.Pos > ws && e.Pos < we) {
+							inside = false
+						}
+					}
+					if inside && len(gg) != m {
+						return viol("survival", "%s: a site-only feature strictly inside the window [%d,%d) was dropped by Slice", what, ws, we)
+					}
+				}
+			}
 			// an empty window that lies strictly inside a part "overlaps" it in interval terms although no residue
 			// is selected: the statement does not settle that case, so survival is asserted for non-empty windows only
 			if !sites && len(res) > 0 && newLen > 0 {
